@@ -325,7 +325,7 @@ def plan_for(prop, tier, seed):
     elif prop == "C08":
         P["design"] = (run_sweep(tier, lambda k: k.get("strategy", "none") != "none") + stream_sweep(tier, interrupting_only=True)
                        + [job("IStreamMC", "istream", dict(MaxK=3, MaxItems=6),
-                              ["Inv_C08", "Inv_EndsAfterInterrupt", "Inv_Transparent", "Inv_IntItemOnlyFinish"], workers=2, heap="2g"),
+                              ["Inv_C08", "Inv_EndsAfterInterrupt", "Inv_Transparent", "Inv_IntItemOnlyFinish", "Inv_Callbacks"], workers=2, heap="2g"),
                           # the known finding, reproduced at design level: the bound on STARTS fails for the for_each bodies
                           # when the signal arrives in the middle of a poll
                           job("Run", "finding_c08_starts", run_consts(3, "for_each", strategy="finish"), ["Inv_C08", "Inv_C08_Starts"],
